@@ -33,6 +33,8 @@ def configs(ctx):
     tmpl = dict(U.templates("thorough"))
     tags = ["P1", "P1ij", "P2", "P8b", "EW2", "EW3"] + ([] if quick else ["P8"])
     for tag in tags:
+        # (P1ij is P1 with ranks named I, J: it keeps the quick parameters in both tiers)
+        quick = ctx.quick or tag == "P1ij"
         expr = tmpl[tag]
         decl = U.decl_for([expr])
         ranks = U.expr_ranks(expr)
@@ -48,7 +50,7 @@ def configs(ctx):
             best = max(sum(e[r] for r in need) for e in ex)
             return [e for e in ex if sum(e[r] for r in need) >= best - (0 if quick else 1)]
 
-        max_cells = ctx.pick(10, 12) if tag != "P8" else 12
+        max_cells = (10 if quick else (12 if tag in ("P1", "EW3") else 11)) if tag != "P8" else 12
 
         def add(part, chains, need, label, sizes=None):
             los = monotone_orders(chains)
@@ -138,6 +140,7 @@ def configs(ctx):
                         add({x: [occ(t, 2), occ(t, 1)], key: ["flatten()"]}, [[x + "2", x + "1", flat]] + others, [x, y],
                             "occ2flat:%s@%s" % (flat, t))
     from mc.spec.build import E as E_, T as T_, times as times_
+    quick = ctx.quick
     d4 = {"A": ["M", "N", "P", "Q"], "B": ["M", "N", "P", "Q"], "Z": ["M", "N", "P", "Q"]}
     e4 = E_("Z", ["m", "n", "p", "q"], times_(T_("A", "m", "n", "p", "q"), T_("B", "m", "n", "p", "q")))
     for part, ext in (({"(M, N)": ["flatten()"], "(P, Q)": ["flatten()"]}, {"M": 2, "N": 1, "P": 2, "Q": 1}),
